@@ -92,7 +92,7 @@ package align
 // every cell is expanded as above (C04) provided the rows do not share storage (owns(a): true of every alignment built by the package;
 // it is a premise of the clauses and not a precondition, so that the parsers' proofs (C03) need not establish it).
 //@ func (*align).ReplaceMatchChars
-//@   props C03 C04
+//@   props C03 C04 C01
 //@   requires wfa(a)
 //@   ensures wfa(a) && nrows(a) == old(nrows(a)) && a.length == old(a.length)
 //@   ensures [C04] c4b_sameshape(a)
@@ -118,7 +118,7 @@ package align
 
 // DiffWithFirst, the function itself: only residues are written (the per-row effect is the closure's contract below)
 //@ func (*align).DiffWithFirst
-//@   props C04
+//@   props C04 C01
 //@   requires wfa(a)
 //@   ensures wfa(a) && c4b_sameshape(a)
 //@   modifies mem(uint8)
